@@ -37,10 +37,11 @@ Proof.
     { rewrite Z.abs_mul, (Z.abs_eq (10 ^ D)) by lia.
       assert (10 ^ w * 10 ^ 29 = 10 ^ (tl - 1) * 10 ^ D).
       { rewrite <- !p10_add by lia. f_equal. unfold w. lia. }
-      rewrite H. nia. }
+      rewrite H. apply Z.mul_le_mono_nonneg_r; lia. }
     assert (HSabs : Z.abs (T * 10 ^ D + O) = Z.abs c * 10 ^ j).
     { rewrite HS, Z.abs_mul, (Z.abs_eq (10 ^ j)) by lia. reflexivity. }
-    assert (Z.abs c * 10 ^ j <= (10 ^ 28 - 1) * P) by nia.
+    assert (Z.abs c * 10 ^ j <= (10 ^ 28 - 1) * P).
+    { apply Z.mul_le_mono_nonneg; lia. }
     assert (Z.abs (T * 10 ^ D) - Z.abs O <= Z.abs (T * 10 ^ D + O)) by lia.
     lia.
 Qed.
@@ -57,7 +58,7 @@ Lemma dadd_zero_l : forall mb eb e, mb <> 0 -> e <= eb -> fits28 (mb * 10 ^ (eb 
   exists q k, 0 <= k /\ fix28 (mkDec (mb * 10 ^ (eb - e')) e') = mkDec q (e + k) /\
               q * 10 ^ k = mb * 10 ^ (eb - e) /\ ndigits q <= 28.
 Proof.
-  intros mb eb e Hmb Hle Hf e'. unfold prec in e'.
+  intros mb eb e Hmb Hle Hf. unfold prec. set (e' := Z.max e (eb - 28 - 1)).
   assert (He' : e <= e' <= eb) by (unfold e'; lia).
   assert (Hsplit : mb * 10 ^ (eb - e) = mb * 10 ^ (eb - e') * 10 ^ (e' - e)).
   { rewrite <- Z.mul_assoc, <- p10_add by lia. do 2 f_equal. lia. }
@@ -72,7 +73,7 @@ Lemma dadd_fits : forall a b, let e := Z.min (de a) (de b) in
   fits28 (dnum a e + dnum b e) ->
   exists q k, 0 <= k /\ dadd a b = mkDec q (e + k) /\ q * 10 ^ k = dnum a e + dnum b e /\ ndigits q <= 28.
 Proof.
-  intros [ma ea] [mb eb]. cbn [dm de]. intros e Hf. unfold dnum in *. cbn [dm de] in *. unfold dadd. cbn [dm de].
+  intros [ma ea] [mb eb] e Hf. cbn [dm de] in e. unfold dnum in *. cbn [dm de] in *. unfold dadd. cbn [dm de].
   fold e.
   destruct (ma =? 0) eqn:Ea; destruct (mb =? 0) eqn:Eb; cbn [andb].
   - assert (ma = 0) by lia. assert (mb = 0) by lia. subst. exists 0, 0.
